@@ -11,6 +11,8 @@ void PD_H(void)
     { char *r = cJSON_GetStringValue(i); VF_COVER(r != NULL); VF_COVER(r == NULL && i != NULL); VF_COVER(i == NULL); }
 #elif PD_KIND == 2
     { double r = cJSON_GetNumberValue(i); VF_COVER(r == 1.5); VF_COVER(__CPROVER_isnand(r) && i != NULL); VF_COVER(i == NULL); }
+#elif PD_KIND == 4
+    { const char *k; cJSON_bool r; g_fwp.pub_calls = 0; r = cJSON_HasObjectItem(i, k); VF_COVER(r == 1); VF_COVER(r == 0); VF_COVER(g_fwp.pub_calls == 1); }
 #else
     { cJSON_bool r; g_ps.calls = 0; r = print_string(i, p); VF_COVER(r == 1); VF_COVER(r == 0); VF_COVER(g_ps.calls == 1); }
 #endif
